@@ -423,7 +423,7 @@ Definition with_mar (D : dtables) (hs : handlers) : dtables :=
 Fixpoint peel (t : ity) : ity :=
   match t with
   | INewType _ s | IAlias _ s | IFinal s | IClassVar s => peel s
-  | IAliasStr _ s => IForwardRef s (Some user_module)
+  | IAliasStr _ s => IForwardRef (fref_name user_module s) (Some user_module)
   | _ => t
   end.
 Fixpoint wdepth (t : ity) : nat :=
